@@ -34,6 +34,7 @@ type bcOp struct {
 	E    int    `json:"e,omitempty"`
 	C    bool   `json:"c,omitempty"`
 	G    bool   `json:"g,omitempty"`
+	TE   bool   `json:"te,omitempty"` // (wait) the predicate returns (true, err) instead of (false, err) when n == E
 }
 
 type bcScenario struct {
@@ -116,6 +117,7 @@ func genBroadcast(x *sched.Exec) bcScenario {
 				prog[j].K = r.Intn(incs + 2)
 				if r.Intn(4) == 0 {
 					prog[j].E = 1 + r.Intn(incs+1)
+					prog[j].TE = r.Intn(2) == 0
 				}
 			}
 		}
@@ -173,7 +175,8 @@ func (d *bcDriver) pred(id int, op bcOp, perr error) (bool, error, string) {
 	var err error
 	switch {
 	case op.E > 0 && n == op.E:
-		res, err = "e", perr
+		// "returns the predicate's error unchanged" also when the predicate says done
+		res, err, done = "e", perr, op.TE
 	case n >= op.K:
 		res, done = "t", true
 	}
